@@ -1,2 +1,11 @@
 import Ufw.Props.C10
 #print axioms Ufw.Props.C10.part_bounds
+#print axioms Ufw.Props.C10.checksum_chunking
+#print axioms Ufw.Props.C10.validate_iff
+#print axioms Ufw.Props.C10.alteration_detected
+#print axioms Ufw.Props.C10.store_validate_fetch
+#print axioms Ufw.Props.C10.region
+#print axioms Ufw.Props.C10.reset_spec
+#print axioms Ufw.Props.C10.sum16_streamable
+#print axioms Ufw.Props.C10.sum32_streamable
+#print axioms Ufw.Props.C10.crc16_streamable
